@@ -17,6 +17,9 @@ use std::io::Read;
 pub struct Config {
     pub focus: String,
     pub max_len: usize,
+    /// one frame in twelve is large (up to this many bytes): incompressible content then spans
+    /// several stored blocks of the deflate stream
+    pub big_len: usize,
 }
 
 fn var_u32(buf: &[u8]) -> Option<(u32, usize)> {
@@ -264,7 +267,11 @@ pub fn run(cfg: &Config, stats: &mut Stats, run_seed: u64, cat: &crate::catalog:
     let nframes = 1 + sw.usize_below(3);
     for _ in 0..nframes {
         stats.events += 1;
-        let (d, kind) = content(&mut wl, cfg.max_len);
+        let big = wl.chance(1, 12);
+        if big {
+            stats.count("probe.large_frame");
+        }
+        let (d, kind) = content(&mut wl, if big { cfg.big_len } else { cfg.max_len });
         let level = wl.below(10) as u32;
         let ns = wl.usize_below(9);
         let sibling = wl.bytes(ns);
